@@ -93,6 +93,8 @@ Inductive guard :=
 | GuardCheck        (* user_namespace_privilege!(req) + check on the request's namespace, refusing before any data access *)
 | GuardParam        (* privilege passed into the query parameter (filtering in the index) + check when a namespace is named *)
 | GuardFilter       (* the result list is filtered by the privilege (namespace list) *)
+| GuardIndex        (* privilege passed into the query parameter, NO explicit refusal: the index filter ([query_page])
+                       decides — a request naming a forbidden namespace is answered with an empty result *)
 | NoGuard.          (* no use of the caller's privilege *)
 
 (** is a request naming namespace [k] (None = no namespace named) acted upon? *)
@@ -101,6 +103,7 @@ Definition acts (gd : guard) (g : pgroup) (k : option str) : bool :=
   | GuardCheck => match k with Some k => ns_check g k | None => ns_check g [] end
   | GuardParam => ns_check_option g k true
   | GuardFilter => true
+  | GuardIndex => true
   | NoGuard => true
   end.
 
